@@ -2,9 +2,10 @@
 driver.setup_env() before this module imports numpy and typhon).
 
 A group is a multiset of (truth, offset %) pairs; its cases are both functions
-x all distinct orders x SCALES x SHAPES. The first order at scale 1 as 1-D vectors is the
-reference of the group (judged against the offset if it is uniform); every
-other case is judged against the case that differs from it in one respect.
+x all distinct orders x SCALES x SHAPES. The first order at scale 1 as 1-D
+float vectors is the reference of the group (judged against the offset if it
+is uniform); every other case is judged against the case that differs from it
+in one respect.
 """
 import itertools
 
@@ -16,8 +17,10 @@ OFFSETS = (-10, -1, 0, 1, 10, 50)
 PAIRS = tuple(itertools.product(TRUTHS, OFFSETS))
 SCALES = (1, -3, 1e-3, 7)
 # both arguments (n,), (n,1), (1,n), (n/2,2); one of them (n,) and the other
-# (n,1): the same n values element by element in every layout
-SHAPES = ("vector", "column", "row", "matrix", "pred-column", "truth-column")
+# (n,1); both (n,) with one of them as int64 (counts; only where its values
+# are integral): the same n values element by element in every layout
+SHAPES = ("vector", "column", "row", "matrix", "pred-column", "truth-column",
+          "pred-int64", "truth-int64")
 FUNCS = ("mape", "bias")
 EPS = 2.0 ** -52
 
@@ -46,11 +49,28 @@ def groups(kind, n, first, p):
                 yield group
 
 
-def evaluate(func, order, scale, shape):
-    """-> typhon's value, or the exception it raised."""
+def arrays(order, scale):
     truth = np.array([t for t, _ in order]) * scale
     pred = np.array([t * (1 + p / 100) for t, p in order]) * scale
-    if shape == "column":
+    return pred, truth
+
+
+def applicable_shapes(order, scale):
+    pred, truth = arrays(order, scale)
+    skip = {"matrix": len(order) % 2 == 1,
+            "pred-int64": np.any(pred != np.rint(pred)),
+            "truth-int64": np.any(truth != np.rint(truth))}
+    return [shape for shape in SHAPES if not skip.get(shape)]
+
+
+def evaluate(func, order, scale, shape):
+    """-> typhon's value, or the exception it raised."""
+    pred, truth = arrays(order, scale)
+    if shape == "pred-int64":
+        pred = pred.astype(np.int64)
+    elif shape == "truth-int64":
+        truth = truth.astype(np.int64)
+    elif shape == "column":
         truth, pred = truth.reshape(-1, 1), pred.reshape(-1, 1)
     elif shape == "row":
         truth, pred = truth.reshape(1, -1), pred.reshape(1, -1)
@@ -113,15 +133,15 @@ def run_shard(res, shard, report):
     for group in groups(kind, n, first, p):
         cache = {}
         for order in sorted(set(itertools.permutations(group))):
-            for func, scale, shape in itertools.product(FUNCS, SCALES, SHAPES):
-                if shape == "matrix" and len(order) % 2:
-                    continue
-                res.case(nontrivial=any(q != 0 for _, q in order))
-                case = dict(part="percent", func=func, pairs=order,
-                            scale=scale, shape=shape)
-                report(res, case,
-                       check_case(func, order, scale, shape, cache),
-                       lambda: check_case(func, order, scale, shape, {}))
+            for scale in SCALES:
+                for func, shape in itertools.product(
+                        FUNCS, applicable_shapes(order, scale)):
+                    res.case(nontrivial=any(q != 0 for _, q in order))
+                    case = dict(part="percent", func=func, pairs=order,
+                                scale=scale, shape=shape)
+                    report(res, case,
+                           check_case(func, order, scale, shape, cache),
+                           lambda: check_case(func, order, scale, shape, {}))
         res.count("mape_bias_calls", len(cache))
     if case is not None:
         res.sample(case)
